@@ -9,7 +9,7 @@ use bourse_book::types::Side;
 use bourse_book::OrderBook;
 use bourse_de::Env;
 use rand_xoshiro::rand_core::SeedableRng;
-use rand_xoshiro::Xoroshiro128StarStar;
+use crate::rng::Gen;
 use serde::{Deserialize, Serialize};
 use serde_json::{json, Value};
 use std::cell::RefCell;
@@ -146,8 +146,8 @@ pub fn preflight() -> Result<String, String> {
 
 enum Obj {
     Book(Box<OrderBook>),
-    Env(Box<Env>, Xoroshiro128StarStar),
-    Numpy(Box<Env>, Xoroshiro128StarStar),
+    Env(Box<Env>, Gen),
+    Numpy(Box<Env>, Gen),
 }
 
 fn order_json(o: &OOrder) -> Value {
@@ -286,6 +286,8 @@ enum Exp {
 
 struct Mirror {
     objs: std::collections::BTreeMap<String, Obj>,
+    /// member of the generator family the mirror's environments are seeded with (0 = Xoroshiro128**)
+    gen_kind: usize,
 }
 
 fn side(bid: bool) -> Side {
@@ -345,7 +347,7 @@ impl Mirror {
                     return Exp::Skip;
                 }
                 let env = Box::new(Env::new(t, tick, step, trading));
-                let rng = Xoroshiro128StarStar::seed_from_u64(seed);
+                let rng = Gen::new(self.gen_kind, seed);
                 self.objs.insert(c.o.clone(), if c.k == "new_env" { Obj::Env(env, rng) } else { Obj::Numpy(env, rng) });
                 Exp::Ret(Value::Null)
             }
@@ -663,9 +665,27 @@ fn is_layout_call(c: &PyCall) -> bool {
     matches!(c.m.as_str(), "level_1_data_array" | "level_2_data_array" | "level_1_data" | "level_2_data" | "get_market_data") || c.k == "df_orders" || c.k == "df_trades"
 }
 
+/// No property names the algorithm of the generator a `StepEnv` builds from its seed: a script whose mirror (built with
+/// the pinned tree's Xoroshiro128**) diverges after an environment step is re-executed with every other member of the
+/// generator family before anything is reported; if one of them agrees call by call, that run is the verdict.
 pub fn execute(s: &W5Scn, run_dir: &str) -> RunOutcome {
+    let first = execute_kind(s, run_dir, 0);
+    if first.violation.is_none() || !s.calls.iter().any(|c| c.m == "step") {
+        return first;
+    }
+    for kind in 1..crate::rng::GEN_NAMES.len() {
+        let mut o = execute_kind(s, run_dir, kind);
+        if o.violation.is_none() {
+            o.stats.probe("stepenv_generator_other_family_member");
+            return o;
+        }
+    }
+    first
+}
+
+fn execute_kind(s: &W5Scn, run_dir: &str, gen_kind: usize) -> RunOutcome {
     let mut stats = RunStats::default();
-    let mut mirror = Mirror { objs: Default::default() };
+    let mut mirror = Mirror { objs: Default::default(), gen_kind };
     let mk = |class: &str, i: usize, field: &str, exp: String, act: String| Violation::new(&s.property, class, i, field, exp, act);
     let mut viol: Option<Violation> = None;
     let mut files: Vec<String> = vec![];
